@@ -271,11 +271,13 @@ func (p *Process) getBackoff() time.Duration {
 }
 
 func (p *Process) getProcessEnvironment() []string {
-	env := []string{
-		"PC_PROC_NAME=" + p.procConf.Name,
-		EnvReplicaNum + "=" + strconv.Itoa(p.procConf.ReplicaNum),
-	}
-	env = append(env, os.Environ()...)
+	// later entries win: the injected variables must not be overridden by
+	// the ones inherited from the environment process-compose runs in
+	env := append([]string{}, os.Environ()...)
+	env = append(env,
+		"PC_PROC_NAME="+p.procConf.Name,
+		EnvReplicaNum+"="+strconv.Itoa(p.procConf.ReplicaNum),
+	)
 	env = append(env, p.globalEnv...)
 	env = append(env, p.procConf.Environment...)
 	return env
